@@ -1050,12 +1050,18 @@ def _generate_structure_virtual_field_methods(enclosing_type_name, field_ir, ir)
             value_in_range_check = "      if ({}) return false;".format(
                 " ||\n          ".join(out_of_range)
             )
+        read_from_text_stream_function = {
+            "integer": "ReadIntegerFromTextStream",
+            "boolean": "ReadBooleanFromTextStream",
+            "enumeration": "ReadEnumViewFromTextStream",
+        }[field_ir.read_transform.type.which_type]
         write_methods = code_template.format_template(
             _TEMPLATES.structure_single_virtual_field_write_methods,
             logical_type=logical_type,
             destination=destination,
             transform=transform,
             value_in_range_check=value_in_range_check,
+            read_from_text_stream_function=read_from_text_stream_function,
         )
     else:
         write_methods = ""
